@@ -36,13 +36,14 @@ def run(ctx):
                   ("open", LambdaCDM(H0=70, Om0=0.3, Ode0=0.0, Tcmb0=0)), ("open-L", LambdaCDM(H0=70, Om0=0.3, Ode0=0.5, Tcmb0=0)),
                   ("closed", LambdaCDM(H0=70, Om0=0.4, Ode0=0.8, Tcmb0=0))]
         for _ in range(0 if quick else 8):
-            cosmos.append(("random-flat", FlatLambdaCDM(H0=r.uniform(55, 80), Om0=r.uniform(0.15, 0.6), Tcmb0=r.choice([0, 2.7]))))
+            tc = r.choice([0, 2.7])
+            cosmos.append(("random-flat" if tc == 0 else "random-flat-rad", FlatLambdaCDM(H0=r.uniform(55, 80), Om0=r.uniform(0.15, 0.6), Tcmb0=tc)))
         models = {"GrowthFactor": gf.GrowthFactor, "Carroll1992": gf.Carroll1992, "GenMFGrowth": gf.GenMFGrowth}
         for cname, cosmo in cosmos:
             ref = gf.GrowthFactor(cosmo)
             Dref = np.array([ref.growth_factor(z) for z in zs])
             for mname, cls in models.items():
-                if mname == "GenMFGrowth" and cname in ("open-L", "closed", "flat-rad"):
+                if mname == "GenMFGrowth" and cname in ("open-L", "closed", "flat-rad", "random-flat-rad"):
                     continue          # not supported / radiation not modelled by the closed form
                 m = cls(cosmo)
                 try:
@@ -63,7 +64,7 @@ def run(ctx):
                 tol = 0.03
                 if mname != "GrowthFactor":
                     dev = np.abs(D / Dref - 1)
-                    geo = "non-flat" if cname in ("open", "open-L", "closed") else ("flat-with-radiation" if cname == "flat-rad" else "flat")
+                    geo = "non-flat" if cname in ("open", "open-L", "closed") else ("flat-with-radiation" if cname in ("flat-rad", "random-flat-rad") else "flat")
                     for rng_name, sel in (("z<=10", zs <= 10), ("z>10", zs > 10)):
                         if np.any(dev[sel] > tol):
                             i = int(np.argmax(np.where(sel, dev, 0)))
